@@ -83,6 +83,11 @@ PROGRAMS = {
         S("add", "a0", "a0", "s0"), S("lw", "s0", ("m", 8, "sp")), S("addi", "sp", "sp", 2047), S("addi", "sp", "sp", 2047),
         S("addi", "sp", "sp", 2), S("li", "t1", 8192), S("li", "t2", 4096), S("add", "t2", "t2", "t2"), S("sub", "a1", "t1", "t2"), S("ret"),
     ],
+    "garbage-main": [             # top-level code and a function reading several never-assigned registers at once
+        S("add", "a2", "s4", "s5", lab="start"), S("add", "a3", "t3", "t4"), S("sub", "a4", "s6", "t5"), S("add", "a0", "a2", "a3"),
+        S("call", "@f"), S("add", "a0", "a0", "a4"), S("li", "a7", 1), S("ecall"), S("li", "a7", 10), S("ecall"),
+        S("add", "a0", "t0", "t1", lab="f"), S("add", "a0", "a0", "t6"), S("ret"),
+    ],
     "two-functions": [
         S("li", "a0", 3, lab="start"), S("jal", "ra", "@g"), S("mv", "s2", "a0"), S("call", "@h"), S("add", "a0", "a0", "s2"),
         S("li", "a7", 10), S("ecall"),
